@@ -482,6 +482,23 @@ def variations(ctx, rr):
             rr.ob(ctx.where(lv, t), 'www test `%s` looks at the last host stem' % ast.unparse(t), ok=idx == '-1')
             if idx != '-1':
                 rr.fail(ctx.finding('R-VARIATIONS', lv, t, 'the www test looks at host stem [%s], not at the trailing one' % idx))
+    # `hosts[-1] in <bytes constant>` is a substring test (h, w, ww, :w ... all "match"); a www test by position in the list of ALL stems
+    # ignores the stems that may sit between the scheme and the hosts (a port)
+    for t in ast.walk(lv.node):
+        if isinstance(t, ast.Compare) and len(t.ops) == 1 and isinstance(t.ops[0], (ast.In, ast.NotIn)) and isinstance(t.left, ast.Subscript) \
+                and isinstance(t.left.value, ast.Name) and t.left.value.id in host_lists and isinstance(t.comparators[0], ast.Constant) \
+                and isinstance(t.comparators[0].value, (bytes, str)):
+            n_www += 1
+            rr.ob(ctx.where(lv, t), 'www test `%s` compares the whole stem' % ast.unparse(t), ok=False)
+            rr.fail(ctx.finding('R-VARIATIONS', lv, t, 'the www test `%s` asks whether the last host stem occurs INSIDE the constant (a byte-string `in`): stems like h:w or h:ww pass '
+                                'for www and are removed, so the class is not closed' % ast.unparse(t)[:50]))
+        if isinstance(t, ast.Compare) and isinstance(t.left, ast.Subscript) and isinstance(t.left.value, ast.Name) and t.left.value.id not in host_lists \
+                and any(isinstance(c, ast.Constant) and isinstance(c.value, (bytes, str)) and c.value in (b'h:www', 'h:www') for c in t.comparators) \
+                and any(isinstance(x, ast.Name) and x.id in host_lists for x in ast.walk(t.left.slice)):
+            n_www += 1
+            rr.ob(ctx.where(lv, t), 'www test `%s` looks at the last host stem' % ast.unparse(t)[:50], ok=False)
+            rr.fail(ctx.finding('R-VARIATIONS', lv, t, 'the www test `%s` finds the last host by its position among all stems: with a stem between the scheme and the hosts (a port) it looks '
+                                'at the wrong stem, so a www form gets a second www or a non-www host is removed' % ast.unparse(t)[:50]))
     # a www test that looks at the text of the whole LRU instead of the last host stem
     lp_ = lv.params[0] if lv.params else None
     for i_ in P.own(lv, ast.If):
@@ -524,6 +541,24 @@ def variations(ctx, rr):
         if not okl:
             rr.fail(ctx.finding('R-VARIATIONS', lv, c, 'a www stem is added to / removed from a host list that can hold a single host (lengths %s): the www form of a single-host prefix '
                                 'does not expand back to it, so the class is not closed' % sorted(ls)))
+    # the host list is changed (www removed or added) on every path that goes on to build the www variations: otherwise the "variation"
+    # is the LRU itself, listed twice
+    g_ = ctx.cfg(lv)
+    changers = {id(c) for c in app_sites} | {id(s_[0]) for s_ in sites}
+    IN_ = _sf(g_, False, lambda n_, st: True if (node_root(n_) is not None and any(id(x) in changers for x in ast.walk(node_root(n_)))) else st, lambda lab, st: st, lambda a, b: a and b)
+    res_names_ = {r_.value.id for r_ in P.own(lv, ast.Return) if isinstance(r_.value, ast.Name)}
+    for n_ in g_.nodes:
+        root = node_root(n_)
+        if root is None or n_.id not in IN_:
+            continue
+        for c in ast.walk(root):
+            if isinstance(c, ast.Call) and isinstance(c.func, ast.Attribute) and c.func.attr == 'append' and isinstance(c.func.value, ast.Name) and c.func.value.id in res_names_ \
+                    and c.args and isinstance(c.args[0], ast.Call) and isinstance(c.args[0].func, ast.Attribute) and c.args[0].func.attr == 'replace':
+                okc = bool(IN_[n_.id]) and bool(changers)
+                rr.ob(ctx.where(lv, c), 'a www variation is only built after the host list was changed', ok=okc)
+                if not okc:
+                    rr.fail(ctx.finding('R-VARIATIONS', lv, c, 'a path reaches `%s` without having added or removed the www stem: the "variation" is the LRU itself, so a prefix is listed twice '
+                                        '(e.g. two host stems ending in www once the removal is limited to longer lists)' % ast.unparse(c)[:50], stmt='www variation unchanged hosts'))
     # the www variations are the LRU (and its scheme variation) with the host section substituted in place
     res_names = [r.value.id for r in P.own(lv, ast.Return) if isinstance(r.value, ast.Name)]
     for c in P.own(lv, ast.Call):
